@@ -120,8 +120,15 @@ BLOCKS = {
     'pagestyle': ('misc', 'N', '\\pagestyle{empty}\n'),
     'title': ('misc', 'N', '\\title{Title %(n)s}\\author{Auth}\\maketitle\n'),
     'toc': ('misc', 'N', '\\tableofcontents\n'),
+    'openout': ('switch', 'W', '\\openout\\myout=file%(n)s.aux \n'),
+    'skip_dimen': ('switch', 'N', 'A\\vskip 3pt B\\hskip 2pt C%(n)s.\n'),
+    'skip_glue': ('switch', 'N', 'A\\vspace{3pt plus 1pt} B\\hspace{2pt} C%(n)s.\n'),
+    'mskip': ('switch', 'N', 'M $a\\mskip 3mu b\\mkern 2mu c_%(n)s$.\n'),
+    'penalty': ('switch', 'N', 'A\\penalty 100 B%(n)s.\n'),
+    'assign_probe': ('switch', 'R', '\\parindent=9pt Q%(n)s:\\ifdim\\parindent=9pt Y\\else N\\fi.\n'),
+    'listings_pkg': ('resources', 'W', 'Uses listings resources %(n)s.\n'),
 }
-NEEDS = {'ifthen_math': ['ifthen'], 'ifthen_plain': ['ifthen'], 'color': ['color'], 'href': ['hyperref'],
+NEEDS = {'listings_pkg': ['listings'], 'ifthen_math': ['ifthen'], 'ifthen_plain': ['ifthen'], 'color': ['color'], 'href': ['hyperref'],
          'coltype_def': ['array'], 'coltype_use': ['array']}
 BLOCK_IDS = sorted(BLOCKS)
 CONFLICTS = [('newif', 'newif_probe'), ('coltype_def', 'coltype_use')]
@@ -349,7 +356,10 @@ def history_job(args, fs):
         out['xml'] = canonical(holder.get('xml', ''), table) if 'xml' in holder else None
         files = {}
         for rel in sorted(set(fs.writes[w0:])):
-            if rel.endswith(('.css', '.js', '.png', '.gif', '.jpg', '.svg', '.woff', '.ttf', '.eot', '.map', '.paux')) or rel == name + '.tex':
+            if rel == name + '.tex':
+                continue
+            if rel in fs.copied or rel.endswith(('.css', '.js', '.png', '.gif', '.jpg', '.svg', '.woff', '.ttf', '.eot', '.map', '.paux')):
+                files[rel] = 'ASSET'          # verbatim copies / binary: the NAME is compared, not the bytes
                 continue
             p = os.path.join(fs.root, rel)
             try:
